@@ -381,7 +381,7 @@ class Outcome:
         self.violations = []      # (why, case)
         self.known = {}           # kf id -> [count, example]
         self.stale = []
-        self.kf = {f["id"]: f for f in load_known_findings() if f["property"] == pid}
+        self.kf = {f["id"]: f for f in load_known_findings() if f["property"] == pid or pid in f.get("also", [])}
 
     def add_model(self, res):
         self.cov["states"] += res.distinct
